@@ -264,6 +264,10 @@ impl LogInnerManager {
     ) -> anyhow::Result<(u64, u64)> {
         let mut data_cursor = last_index.file_index;
         let msg_count = last_index.log_index - start_index;
+        if count == 0 {
+            // the position of the index entry itself (a truncation exactly at the start of an index interval)
+            return Ok((data_cursor, msg_count));
+        }
         let mut buffer = vec![0u8; 1024];
         let mut reader = MessageBufReader::new();
         file.seek(SeekFrom::Start(data_cursor)).await?;
